@@ -25,11 +25,12 @@ def adapter_headers():
     """every adapter x value type x allocator (x converter shape x behaviour) the harness can instantiate"""
     hs = []
     for T in TYPES:
-        for a in ("cbawait", "cbref", "mkprom"):
+        for a in ("cbawait", "cbref", "cbawt", "cbwrap", "mkprom"):
             for al in ("heap", "stor"):
                 hs.append("cb %s %s %s" % (a, T, al))
         hs.append("cb discard %s heap" % T)
         hs.append("cb callfn %s none" % T)
+        hs.append("cb callawt %s none" % T)
     for shape, frm, to in CONV_SHAPES:
         for behav in ("ok", "throw") + (("leave",) if shape == "p" else ()):
             for hlp in ("", " hlp"):
@@ -156,7 +157,7 @@ def make_multi(header, rounds):
 
 
 # helpers that are member objects re-armed with `<<` for one operation after the other (same awaiter node every time)
-REUSABLE = [h for h in HEADERS if h.split()[1] in ("conv", "callfn")]
+REUSABLE = [h for h in HEADERS if h.split()[1] in ("conv", "callfn", "callawt")]
 SEQ_TIMINGS = ["pre", "imm", "self", "other", "destroyed"]
 
 
@@ -216,8 +217,9 @@ def gen_reuse_exhaustive(headers, length):
 # one representative header per adapter code path (value type int), for the exhaustive enumerations of the quick tier
 CORE = ["cb cbawait int heap", "cb cbawait int stor", "cb cbref int heap", "cb mkprom int heap", "cb mkprom int stor",
         "cb discard int heap", "cb callfn int none", "cb conv int none m int ok", "cb conv void none m int ok",
-        "cb conv int none p int ok", "cb conv int none f int throw"]
-CORE_REUSE = ["cb callfn int none", "cb callfn void none", "cb conv int none m int ok", "cb conv void none m int ok",
+        "cb conv int none p int ok", "cb conv int none f int throw",
+        "cb callawt int none", "cb cbawt int heap", "cb cbwrap int stor"]
+CORE_REUSE = ["cb callfn int none", "cb callfn void none", "cb callawt int none", "cb callawt void none", "cb conv int none m int ok", "cb conv void none m int ok",
               "cb conv int none p int ok hlp", "cb conv int none c int throw"]
 
 
@@ -254,19 +256,44 @@ def valid_round(i):
     return True
 
 
+# callback_await in its spellings: on a future built in the frame, on a caller-owned future, on an awaiter object obtained
+# with retrieve_awaiter(), on an awaiter_wrapper
+CBAWAIT = ("cbawait", "cbref", "cbawt", "cbwrap")
+READ_STYLES = ["get", "star", "bool", "not"]
+
+
+def with_read_styles(cases):
+    """the callback of callback_await inspects its await_result in one of four spellings (get / operator* / operator bool /
+    operator!), rotating deterministically over the cases"""
+    k = 0
+    for c in cases:
+        if c["lines"][0].split()[3] not in CBAWAIT or any(l.startswith("read ") for l in c["lines"]):
+            continue
+        out = []
+        for l in c["lines"]:
+            out.append(l)
+            if l == "g" or l.startswith("g "):
+                out.append("read " + READ_STYLES[k % 4])
+                k += 1
+        c["lines"] = out
+    return cases
+
+
 def parse(case, out):
     hdr = case["lines"][0].split()
     info = {"adapter": hdr[3], "T": hdr[4], "alloc": hdr[5], "shape": hdr[6] if len(hdr) > 6 else None,
             "to": hdr[7] if len(hdr) > 7 else None, "behav": hdr[8] if len(hdr) > 8 else None,
             "threads": [l.split() for l in case["lines"][1:] if l.split()[0] in ("g", "r", "d")],
             "pre": None, "imm": None, "cb": [], "conv": [], "events": [], "rets": {}, "outer": None, "final": None,
-            "deadlock": False, "crash": False, "assert": None, "ops": [], "cbthrow": False}
+            "deadlock": False, "crash": False, "assert": None, "ops": [], "cbthrow": False, "read": None}
     for l in case["lines"][1:]:
         w = l.split()
         if w[0] in ("pre", "imm"):
             info[w[0]] = w[1:]
         elif w[0] == "cbthrow":
             info["cbthrow"] = True
+        elif w[0] == "read":
+            info["read"] = w[1]
     for l in out:
         w = l.split()
         if not w:
@@ -332,6 +359,9 @@ class CallbackSuite(Suite):
                        "interleaving contains a context switch; distinct = adapter header + scenario + sequence of synchronising operations")
 
     def gen_cases(self, rng, tier):
+        return with_read_styles(self.gen_cases0(rng, tier))
+
+    def gen_cases0(self, rng, tier):
         if tier == "quick":
             return (gen_sequential() + gen_exhaustive(HEADERS, 6) + gen_exhaustive(CORE, 8) + gen_exhaustive(HEADERS, 5, with_dtor=True)
                     + gen_random(rng, 4000) + gen_contract(rng, 100)
@@ -352,7 +382,7 @@ class CallbackSuite(Suite):
         return n == 1 or sum(1 for a, b in zip(tids, tids[1:]) if a != b) >= 1
 
     def stats(self, cases, outs):
-        adapters, timing, outcomes, alloc, completer, nops, pairs = {}, {}, {}, {}, {}, {}, {}
+        adapters, timing, outcomes, alloc, completer, nops, pairs, reads = {}, {}, {}, {}, {}, {}, {}, {}
         switches = refused = ready_first = parked = 0
         flat = []
         for c in cases:
@@ -369,6 +399,8 @@ class CallbackSuite(Suite):
                     pairs[a + " -> " + b] = pairs.get(a + " -> " + b, 0) + 1
         for c, o in flat:
             i = parse(c, o)
+            if i["read"]:
+                reads[i["read"]] = reads.get(i["read"], 0) + 1
             a = i["adapter"] + ("/" + i["shape"] + ":" + i["T"] + ">" + i["to"] + ":" + i["behav"] if i["adapter"] == "conv" else "")
             adapters[a] = adapters.get(a, 0) + 1
             alloc[i["alloc"]] = alloc.get(i["alloc"], 0) + 1
@@ -401,7 +433,7 @@ class CallbackSuite(Suite):
                         (n for n, x in enumerate(o) if x.startswith("s ")), default=-1) else ("registrar" if last == "0" else "other")
                     break
             completer[who] = completer.get(who, 0) + 1
-        return {"operations_per_case": nops, "reuse_consecutive_operations(registration outcome)": pairs,
+        return {"await_result_read_spelling(operations)": reads, "operations_per_case": nops, "reuse_consecutive_operations(registration outcome)": pairs,
                 "contract_violating_cases(callback throws)": sum(1 for c in cases if "cbthrow" in c["lines"]),
                 "adapters": adapters, "timing": timing, "source_outcome": outcomes, "allocator": alloc,
                 "registration_refused_by_cas": refused, "ready_at_await_ready": ready_first, "parked_then_resumed": parked,
@@ -414,7 +446,7 @@ class CallbackSuite(Suite):
         parsed = [parse(c, o or []) for c, o in ops]
         if not all(valid_round(i) for i in parsed):
             return []          # not a scenario (only reachable by shrinking): nothing the statement talks about
-        if len(ops) > 1 and parsed[0]["adapter"] not in ("conv", "callfn", "cbref"):
+        if len(ops) > 1 and parsed[0]["adapter"] not in ("conv", "callfn", "callawt", "cbref", "cbawt", "cbwrap"):
             return []
         msgs = []
         for k, (c, o) in enumerate(ops):
@@ -448,7 +480,7 @@ class CallbackSuite(Suite):
             # catch block; the statement only constrains the helper block here
             if not i["cb"] or i["cb"][0] != exp:
                 msgs.append("outcome: callback saw %s first, the operation's outcome is %s" % (i["cb"][:1], exp))
-        elif ad in ("cbawait", "cbref", "mkprom", "callfn"):
+        elif ad in CBAWAIT + ("mkprom", "callfn", "callawt"):
             if len(i["cb"]) != 1:
                 msgs.append("once: callback ran %d times for one awaited operation" % len(i["cb"]))
             for o in i["cb"]:
@@ -483,7 +515,7 @@ class CallbackSuite(Suite):
                 if i["outer"] != want:
                     msgs.append("conv: outer future holds %s, expected %s for source outcome %s" % (" ".join(i["outer"]), " ".join(want), exp))
         # --- the helper block: allocated once where the adapter owns one, released exactly once, after the completion
-        want_alloc = {"cbawait": 1, "cbref": 1, "mkprom": 1, "discard": 1}.get(ad, 0)
+        want_alloc = {"cbawait": 1, "cbref": 1, "cbawt": 1, "cbwrap": 1, "mkprom": 1, "discard": 1}.get(ad, 0)
         allocs = [e for e in i["events"] if e[0] == "alloc"]
         frees = [e for e in i["events"] if e[0] == "free"]
         if len(allocs) != want_alloc:
